@@ -162,6 +162,7 @@ def universe(tier):
     yield from mixedgaps(tier)
     yield from precsame(tier)
     yield from samepred(tier)
+    yield from dupedge(tier)
 
 
 LONG_GAPS = ["1m", "2m", "1.5m", "1y", "5w", "45d", "1000h", "0.5y"]
@@ -251,6 +252,36 @@ def precsame_spec(it):
     return {"dur": "4w", "alap": it["alap"], "resources": [{"id": "r1"}, {"id": "r2"}, {"id": "r3"}], "tasks": [p1, p2, rel]}
 
 
+def dupedge(tier):
+    """the SAME predecessor stated twice for one task with different gaps (every edge applies): twice in one list, in two
+    depends statements, as 'precedes' on the predecessor next to 'depends' on the task, twice in one precedes list"""
+    for form in ("list", "twostmt", "prec+dep", "prec2"):
+        for g1 in (None, "2h", "2d"):
+            for g2 in (None, "2h", "2d"):
+                if g1 == g2:
+                    continue
+                for alap in (False, True):
+                    yield {"kind": "dupedge", "form": form, "g1": g1, "g2": g2, "alap": alap}
+
+
+def dupedge_spec(it):
+    def dep(ref, g):
+        return {"ref": ref, "gap": g} if g else ref
+    leaf = lambda i, m, r, **kw: {"id": i, "effort": m, "alloc": [r], **kw}  # noqa: E731
+    x, f = leaf("x", 240, "r1"), leaf("f", 120, "r2")
+    form = it["form"]
+    if form in ("list", "twostmt"):
+        f["deps"] = [dep("x", it["g1"]), dep("x", it["g2"])]
+        if form == "twostmt":
+            f["depsplit"] = True
+    elif form == "prec+dep":
+        x["prec"] = [dep("f", it["g1"])]
+        f["deps"] = [dep("x", it["g2"])]
+    else:
+        x["prec"] = [dep("f", it["g1"]), dep("f", it["g2"])]
+    return {"dur": "4w", "alap": it["alap"], "resources": [{"id": "r1"}, {"id": "r2"}], "tasks": [x, f, leaf("z", 60, "r2", prio=100)]}
+
+
 def samepred(tier):
     """the SAME predecessor named at several levels of the task tree with different gaps / kinds (every edge applies)"""
     for outer_gap in ("3d", "1d", None):
@@ -284,6 +315,8 @@ def to_spec(it):
         return samepred_spec(it)
     if it.get("kind") == "precsame":
         return precsame_spec(it)
+    if it.get("kind") == "dupedge":
+        return dupedge_spec(it)
     if it.get("kind") == "mixedgap":
         return mixedgap_spec(it)
     if it.get("kind") == "longgap":
